@@ -556,6 +556,21 @@ theorem hmm_sample_defined (n : Nat) (eq : List ℝ) (rows : List (List ℝ)) (h
         · omega
         · exact hmem s hs
 
+/-- the executable form of the chain's law (`FAIL:hmm_sample_law` in the driver), for every scalar
+type, all draws, all matrices: the first state lies on the step of its draw within the equilibrium
+frequencies (or is the initial value 0 when no step is found), each following state on the step of
+its own draw within the transition row of its predecessor (`hmmStepOk`; for a non-negative row this
+is `Σ_{j<i} p_j ≤ u < Σ_{j≤i} p_j`, `hmm_step_law`) -/
+theorem hmm_sample_law {α : Type} [Scalar α] (eq : List α) (rows : List (List α)) (size : Nat) (draws : List α) (l : List Nat)
+    (h : hmmSample eq rows size draws = .ok l) : hmmSampleLawOk eq rows (draws.take size) l = true :=
+  hmmSample_law eq rows size draws l h
+
+/-- the step predicate is the subtractive search of the code -/
+theorem hmm_step_pred {α : Type} [Scalar α] (p : List α) (u : α) (i : Nat) :
+    subtractSearch u p 0 = some i ↔ hmmStepOk p u i = true := by
+  have := subtractSearch_iff_stepOk p u 0 i
+  simpa using this
+
 /-- in floating point a row can sum to slightly less than 1; a draw above the sum then leaves `stb`
 uninitialised (the model's `ub`): a row `[0.5, 0.25]` and the draw `0.9` -/
 theorem hmm_uninitialised_witness : hmmChain [[(1 : ℝ) / 2, 1 / 4], [1 / 2, 1 / 2]] 0 1 [9 / 10] = .error .ub := by
